@@ -1626,6 +1626,9 @@ def log_partial(kind, *operands):
 
 
 def scalar_binop(k, a, b):
+    if k == "Mult" and isinstance(a, Builtin) and a.name.startswith("ctypes.c_") and isinstance(b, int):
+        # (ctypes.c_void_p * n): an array type; calling it packs its n arguments
+        return Builtin("%s*%d" % (a.name, b), lambda *xs: list(xs))
     for v in (a, b):
         if not isinstance(v, (int, Q, T, bool, np.integer)):
             if v is None:
